@@ -8,6 +8,9 @@ EXTENDS Lsp
 Imp4 == { << {}, {}, {}, {} >>,
           << {}, {}, {1}, {1, 2} >>,
           << {}, {2}, {1}, {3} >> }
+(* Imp4 without the import-free table (there the disk cannot matter) *)
+Imp4b == { << {}, {}, {1}, {1, 2} >>,
+           << {}, {2}, {1}, {3} >> }
 Imp3 == { << {}, {}, {1} >>, << {}, {2}, {1} >> }
 Imp6 == { << {}, {}, {}, {}, {}, {} >>,
           << {}, {}, {}, {1}, {2}, {1, 3} >>,
@@ -16,6 +19,9 @@ Imp6 == { << {}, {}, {}, {}, {}, {} >>,
 (* deviation searches: one library document, importers of it *)
 ImpDev  == { << {}, {}, {1} >> }
 DisksDev == { << 1, 0 >>, << 0, 0 >> }
+(* requests do not matter for the deviations: one kind, one position class  *)
+DevKinds == { "hover", "workspaceSymbol" }
+DevPos   == { "tokstart" }
 
 (* the configuration without VIEW: every message variant is handled *)
 Imp2 == { << {}, {1} >> }
@@ -26,6 +32,6 @@ DevUC  == { "UnsavedInIndex", "CloseKeepsUnsaved" }
 AllDisks == {}
 (* representative disks for the 3-document configuration: empty workspace;  *)
 (* one library; two files; all three files (acyclic ones survive Init)      *)
-Disks3q == { << 0, 0, 0 >>, << 1, 0, 0 >>, << 1, 3, 0 >>, << 2, 3, 4 >> }
+Disks3q == { << 0, 0, 0 >>, << 1, 3, 0 >>, << 2, 3, 4 >> }
 Disks3 == { << 0, 0, 0 >>, << 1, 0, 0 >>, << 2, 1, 0 >>, << 1, 3, 0 >>, << 1, 2, 4 >>, << 2, 3, 4 >>, << 0, 2, 3 >> }
 =============================================================================
